@@ -116,6 +116,8 @@ TY_FIELDS = [
     {"id": 4, "name": "t", "type": "time", "required": False},
     {"id": 5, "name": "n", "type": "long", "required": False},
     {"id": 6, "name": "m", "type": "int", "required": False},
+    {"id": 7, "name": "n2", "type": {"type": "long"}, "required": False},      # the dict spelling of a primitive type
+    {"id": 8, "name": "ts2", "type": {"type": "timestamp"}, "required": False},
 ]
 
 
@@ -136,11 +138,17 @@ def ty_value(name: str):
         "decimal_frac_into_long": ("n", Decimal("7.9")),
         "decimal_frac_into_int": ("m", Decimal("-0.5")),
         "long_ok": ("n", 12345678901),
+        "decimal_into_date": ("d", Decimal("1.5")),
+        "decimal_into_ts": ("ts", Decimal("1727300000.25")),
+        "frac_into_dict_typed_long": ("n2", 7.9),
+        "tz_aware_into_dict_typed_ts": ("ts2", dt.datetime(2024, 3, 1, 12, 0, 0, tzinfo=tz5)),
+        "dict_typed_long_ok": ("n2", 41),
     }[name]
 
 
 TY_CLASSES = ["date_ok", "datetime_into_date", "float_into_date", "ts_ok", "ts_tz_aware", "float_into_ts", "time_ok",
-              "float_into_time", "decimal_frac_into_long", "decimal_frac_into_int", "long_ok"]
+              "float_into_time", "decimal_frac_into_long", "decimal_frac_into_int", "long_ok", "decimal_into_date",
+              "decimal_into_ts", "frac_into_dict_typed_long", "tz_aware_into_dict_typed_ts", "dict_typed_long_ok"]
 
 
 def gen(rng: random.Random, tier: str, idx: int) -> dict:
